@@ -13,6 +13,14 @@ def _pd():
 
 
 class DataFrame:
+    def __getattr__(self, name):
+        import pandas as _rpd
+        from .values import missing_attr
+        cols = self.__dict__.get("_cols")
+        if isinstance(cols, dict) and name in cols:
+            return self[name]
+        missing_attr(_rpd.DataFrame, name, "pandas.DataFrame")
+
     def __init__(self, data=None, index=None, columns=None, copy=None):
         sympd = _pd()
         self._cols = {}
